@@ -248,3 +248,40 @@ Definition layer_norm_ok (tol eps : Q) (use_mean : bool) (shape red : list nat) 
 (* GroupNorm with g groups over the last axis *)
 Definition group_norm_layer_ok (tol eps : Q) (shape : list nat) (g : nat) xs mask scale bias ys : bool :=
   norm_groups_ok tol eps true (groups_by list_nat_eqb (group_key shape g) (prod shape)) xs mask scale bias ys.
+
+(* ---------------- DenseGeneral / LinearGeneral (flax/linen/linear.py, flax/nnx/nn/linear.py), no batch_dims ---------------- *)
+(* the contracted axes are normalised and SORTED (_normalize_axes); kernel dimension i belongs to the i-th smallest contracted axis;
+   the output keeps the other axes of x in order, followed by the feature dimensions.  Tensors are flat, row-major. *)
+Close Scope Q_scope.
+Fixpoint index_of (d : nat) (l : list nat) : option nat :=
+  match l with
+  | [] => None
+  | y :: r => if Nat.eqb d y then Some 0%nat else option_map S (index_of d r)
+  end.
+Definition znth (l : list Z) (i : nat) : Z := nth i l 0%Z.
+(* the multi-index into x that has bi on the batch axes and ci on the contracted axes *)
+Definition place (rank : nat) (batch ax bi ci : list nat) : list nat :=
+  map (fun d => match index_of d batch with
+                | Some p => nth p bi 0%nat
+                | None => match index_of d ax with Some p => nth p ci 0%nat | None => 0%nat end
+                end) (seq 0 rank).
+Definition dense_general (xshape axes fshape : list nat) (x k : list Z) (bias : option (list Z)) : list Z :=
+  let rank := length xshape in
+  let ax := nsort axes in
+  let batch := filter (fun d => negb (existsb (Nat.eqb d) ax)) (seq 0 rank) in
+  let cshape := map (fun a => nth a xshape 0%nat) ax in
+  let bshape := map (fun a => nth a xshape 0%nat) batch in
+  let kshape := cshape ++ fshape in
+  let oshape := bshape ++ fshape in
+  map (fun o =>
+         let oi := unravel oshape o in
+         let bi := firstn (length batch) oi in
+         let fi := skipn (length batch) oi in
+         (fold_right Z.add 0%Z
+            (map (fun c => let ci := unravel cshape c in
+                           (znth x (ravel xshape (place rank batch ax bi ci)) * znth k (ravel kshape (ci ++ fi)))%Z)
+                 (seq 0 (prod cshape)))
+          + match bias with Some b => znth b (ravel fshape fi) | None => 0%Z end)%Z)
+      (seq 0 (prod oshape)).
+Definition dense_general_oshape (xshape axes fshape : list nat) : list nat :=
+  map (fun a => nth a xshape 0%nat) (filter (fun d => negb (existsb (Nat.eqb d) (nsort axes))) (seq 0 (length xshape))) ++ fshape.
